@@ -379,7 +379,9 @@ def main() -> int:
         extras["canaries"] = []
         names = sorted(os.path.basename(d) for d in glob.glob(os.path.join(HERE, "seeded", prop + "*")) if os.path.exists(os.path.join(d, "meta.json")))
         k = seed % max(len(names), 1)
-        for name in (names[k:] + names[:k])[:2]:
+        for name in (names[k:] + names[:k]):
+            if len([c for c in extras["canaries"] if "exit" in c]) >= 2:
+                break  # two applicable canaries have been run (seeds whose patch no longer applies are listed and skipped)
             tmp = tempfile.mkdtemp(prefix="canary_")
             try:
                 shutil.copytree(os.path.join(os.environ.get("VERIF_REPO", "/repo"), "src"), os.path.join(tmp, "repo", "src"))
